@@ -41,14 +41,26 @@ TRUSTED = [
     'field is checked on the written bytes by harness/c08_validate.py only',
     'SurfaceT4.__eq__/__hash__ are modelled as numeric equality of (type, '
     'parameters, transform) at binary64 (NaN never equal)',
-    'construct_volume_t4 (cell conversion) is outside the model: its output '
-    'tables are the model input (C01/C05 model it); constructCompositionT4 is '
-    'modelled for names/grouping/counts only (numbers are C10\'s)',
+    'construct_volume_t4: the helper-plane insertion is modelled and tied; the '
+    'conversion loop is C01\'s model, number_items is C02\'s, normalize_float is '
+    'C09\'s - LINKED inside Coq (C08_convert_wf_all_linked), each with its own '
+    'tie in its property; TRCL / complement / lattice / FILL / inlining '
+    'processing before the loop is outside (C04-C07, C13); '
+    'constructCompositionT4 is modelled for names/grouping/counts only '
+    '(numbers are C10\'s)',
     'harness: generators, c08_validate reader, impl.T4File, snapshot wrapper '
     'around construct_volume_t4, PEG shim replacing TatSu',
 ]
 ASSUMPTIONS = [
     'material tokens are decimal digits, M-card numbers are positive',
+    'remaining hypotheses of C08_convert_wf_all_linked (stage0_rest4), each '
+    'evaluated on every snapshot (tie:stage0, tie:text, tie:density): the '
+    'volume table is not empty; skipped cells are numbers below the counter '
+    'outside the conversion list; every non-virtual volume comes from a cell '
+    'whose material has a card and a live cell (false for the open findings '
+    'material_without_card / negative_importance_no_composition); the strings '
+    'of the tables are words and the numeric strings finite numbers (false for '
+    'nonfinite_surface_parameter / fortran_spelled_fraction_copied)',
     'a run that raises before the output file is opened, or that dies with '
     'every cell empty (no volume survives), counts as a deck the converter '
     'does not accept',
@@ -248,6 +260,22 @@ m5 1001 -1.5d-1 8016 -8.5-1
 
 m1 1001 1.0
 m2 8016 1 1001 2
+''', []),
+    'tori_flipped_by_half_turns': ('''tori whose axis ends up anti-parallel to a coordinate axis (seeded change C08_B)
+1 1 -1.0 -1 imp:n=1
+2 1 -1.0 -2 imp:n=1
+3 1 -1.0 -3 imp:n=1
+4 0 1 2 3 -4 imp:n=1
+5 0 4 imp:n=0
+
+1 1 tz 0 0 8 3 1 1
+2 2 ty 8 0 0 3 1 1
+3 2 tx 0 -8 0 3 1 1
+4 so 30
+
+tr1 0 0 0 1 0 0 0 -1 0 0 0 -1
+tr2 0 0 0 -1 0 0 0 -1 0 0 0 1
+m1 1001 1.0
 ''', []),
     'bc_on_merged_duplicate': ('''flag carried by a surface merged into its duplicate
 1 1 -1.0 -1 2 imp:n=1
